@@ -320,6 +320,30 @@ func runTopo(e *Env) {
 				}
 				st.eventFor("STATUS_CHANGE", final, h)
 			}
+			var h2 *node.Host
+			if len(others) >= 2 && tp.Chance(1, 3) {
+				// a second node changes its status in the same debounce window
+				for _, c := range others {
+					if c != h && st.down[c.Addr] == st.down[h.Addr] {
+						h2 = c
+						break
+					}
+				}
+			}
+			if h2 != nil {
+				k.Fault("topo.two-status-changes-in-one-window")
+				if st.down[h2.Addr] {
+					delete(st.down, h2.Addr)
+					st.reachable(h2.Addr)
+					k.Rec("step up %s (same window)", h2.Addr)
+					st.eventFor("STATUS_CHANGE", "UP", h2)
+				} else {
+					st.down[h2.Addr] = true
+					st.unreachable(h2.Addr)
+					k.Rec("step down %s (unreachable, same window)", h2.Addr)
+					st.eventFor("STATUS_CHANGE", "DOWN", h2)
+				}
+			}
 			if st.down[h.Addr] {
 				delete(st.down, h.Addr)
 				st.reachable(h.Addr)
@@ -340,9 +364,18 @@ func runTopo(e *Env) {
 			}
 		case 5: // a burst of events, also for unknown addresses
 			n := 3 + tp.Next(6)
+			unknownUps := tp.Chance(1, 3)
+			if unknownUps {
+				// status events for many different addresses the session has never heard of
+				n = 8 + tp.Next(8)
+			}
 			k.Rec("step burst %d", n)
 			k.Fault("topo.event-burst")
 			for i := 0; i < n; i++ {
+				if unknownUps {
+					st.event("STATUS_CHANGE", "UP", fmt.Sprintf("10.0.8.%d", 1+i))
+					continue
+				}
 				addr := fmt.Sprintf("10.0.9.%d", 1+tp.Next(3))
 				var known *node.Host
 				if len(others) > 0 && tp.Chance(1, 2) {
